@@ -25,6 +25,8 @@ CLAIMED['C11'] = ("Bounded symbolic model checking of the query tokenizer, parse
          "Trusted: go/ssa, symgo, z3; hand model of the single regexp use; Sprintf model. Float/regex operand semantics and longer strings are outside the claim. One known finding (reserved-word keys).")
 CLAIMED['C17'] = ("Bounded symbolic model checking of the atomic-replace primitives at mechanism level: every os/file call is a recording stub that fails by a symbolic bit, so every fault schedule is explored; an automaton over the recorded call trace checks that the destination is only ever named by the publishing rename, that the renamed file is the primitive's own temp file in an admissible directory, that write* -> fsync -> close precede the rename, that success is reported iff published and that temp files are renamed or removed. Counterexamples are confirmed on real system calls (strace).",
          "Trusted: go/ssa, symgo, z3, os stubs, and the POSIX rename/fsync assumption that turns the call-order automaton into old-or-new atomicity; the real file system, crashes and concurrent readers are outside the claim.")
+CLAIMED['C01'] = ("Bounded symbolic model checking of the module lifecycle: gate predicates as lemmas over fully symbolic status/flag state, and the real prepare/start/stop/manage passes with goroutines, channels and contexts executed by the engine's scheduler over every DAG shape on <= 3 modules, every order of overlapping callbacks and every position of one failing (error/panic) callback; oracle on the recorded callback trace and final statuses.",
+         "Trusted: go/ssa, symgo (sequentially consistent sync/atomic intrinsics, G1 yield-only scheduling), z3. Finer interleavings, >3 modules, >1 failure and the Start() wrapper are outside the claim.")
 NA = {}
 def check(pid):
     text, note = CLAIMED[pid]
